@@ -521,9 +521,27 @@ def tag_paths(ctx, tr):
                 ctx.tag('timeout_during_inline_child')
 
 
+def tag_paths2(ctx, tr):
+    # an in-handler await of a child that lives on ANOTHER bus, during which the inline drain first ran a handler of some other event
+    # (a suspension in which the other bus's own run loop can take the child off its queue): finding F1's mechanism
+    for ab in tr.AB:
+        if ab.by not in tr.Eh or ab.ev.startswith('idle:'):
+            continue
+        c = ab.ev
+        fd = tr.firstD.get(c)
+        if fd is None or fd.bus == tr.Eh[ab.by].bus:
+            continue
+        ae = next((r for r in tr.AE if r.by == ab.by and r.ev == c and r.seq > ab.seq), None)
+        end = ae.seq if ae is not None else tr.end
+        fam = [c] + tr.desc(c)
+        if any(fd.seq < e.seq < end and e.ev not in fam for e in tr.E):
+            ctx.tag('cross_bus_await_with_intervening_handler')
+
+
 def evaluate(ctx, finished):
     tr = Trace(ctx.records)
     tag_paths(ctx, tr)
+    tag_paths2(ctx, tr)
     fs = final_snaps(ctx)
     eval_c01(ctx, tr, finished)
     eval_c02(ctx, tr)
